@@ -35,3 +35,19 @@ fn verif_filter_map<T, R, F: FnMut(&T) -> Option<R>>(xs: &[T], f: F) -> (r: Vec<
     unimplemented!()
 }
 
+
+// N7 [A-std]: `v.iter().position(f)` on a Vec is emitted as `verif_position(&v, f)`: index of the first element accepted by f
+#[verifier::external_body]
+fn verif_position<T, F: FnMut(&T) -> bool>(xs: &Vec<T>, f: F) -> (r: Option<usize>)
+    requires
+        forall|i: int| 0 <= i < xs@.len() ==> call_requires(f, (&xs@[i],)),
+    ensures
+        xs@.len() <= usize::MAX,
+        match r {
+            Some(n) => n < xs@.len() && call_ensures(f, (&xs@[n as int],), true)
+                && (forall|m: int| 0 <= m < n ==> call_ensures(f, (&#[trigger] xs@[m],), false)),
+            None => forall|m: int| 0 <= m < xs@.len() ==> call_ensures(f, (&#[trigger] xs@[m],), false),
+        },
+{
+    xs.iter().position(f)
+}
